@@ -96,6 +96,18 @@ def run(ctx, rep):
 
     failure_reaches_the_exit_status(F, rep)
     trace_lists_every_frame(F, rep)
+    # a program number that is narrowed or loses its sign on the way into a std operation (`count as usize` for str::repeat) turns an ordinary
+    # "negative count" failure into a Rust panic (capacity overflow: exit 101, no banner, no trace): C05's inventory of casts in the operator impls
+    from props import C05 as _c05
+    from core import Report as _Report5
+    tmp5 = _Report5("C05", rep.tier)
+    _c05.run(ctx, tmp5)
+    k5 = 0
+    for o in tmp5.obligations:
+        if o["key"].startswith("C05.widening"):
+            k5 += 1
+            rep.ob("C17.narrowing", o["instance"], o["status"], o["detail"], o["where"], key=o["key"].replace("C05.widening", "C17.narrowing", 1), fn=o.get("fn"))
+    rep.floor("C17.narrowing casts in the operator implementations", k5, 5)
     # ---- (b) Function::run ------------------------------------------------------------------------------------
     r = need(F, "bytecode::function::Function::run")
     ext = r.calls_to("bytecode::stack::Stack::extend")
